@@ -55,6 +55,8 @@ def child_env(mod, extra=None):
     pp = ["/repo", ROOT, os.path.join(ROOT, ".deps_hyp")]
     if "deps" in getattr(mod, "NEEDS", ()):
         pp.append(os.path.join(ROOT, ".deps"))
+    if "fsgate" in getattr(mod, "NEEDS", ()):
+        env["LD_PRELOAD"] = os.path.join(ROOT, "build", "fsgate.so")
     env["PYTHONPATH"] = ":".join(pp)
     env["PYTHONHASHSEED"] = "0"
     env["PYTHONDONTWRITEBYTECODE"] = "1"
@@ -74,6 +76,8 @@ def scratch_base():
 
 def run_shards(mod, pid, tier, seed, n_shards, excluded, timeout, phase="search"):
     base = getattr(mod, "SCRATCH_BASE", "shm")
+    if base != "shm":
+        os.makedirs("/var/tmp", exist_ok=True)
     top = tempfile.mkdtemp(prefix="vf-%s-" % pid, dir=scratch_base() if base == "shm" else "/var/tmp")
     procs = []
     try:
@@ -156,7 +160,7 @@ def save_replay(pid, failure, subdir=""):
 def replay_inline(mod, spec):
     """Run one spec in a fresh subprocess (so state never leaks); returns
     (status, msg, signature) with status in ok/violation/inconclusive/error."""
-    with tempfile.TemporaryDirectory(prefix="vf-rp-", dir=scratch_base()) as td:
+    with tempfile.TemporaryDirectory(prefix="vf-rp-", dir=scratch_base() if getattr(mod, "SCRATCH_BASE", "shm") == "shm" else "/var/tmp") as td:
         args = {"pid": mod.PROPERTY_ID, "spec": spec, "scratch": td, "out": os.path.join(td, "out.json")}
         to = getattr(mod, "REPLAY_TIMEOUT", 300)
         logp = os.path.join(td, "replay.log")
